@@ -25,6 +25,15 @@ CHECKS = {
    technique="exhaustive product enumeration (message family x definition family x accessors x modes x entry points) against a spec-derived reference walk",
    text="(all ~15k messages x 74 core definitions) U (75 core messages x all 6561 definitions) [quick: deterministic 1/16 and 1/12 slices; thorough: all], each decoded through Decoder.Decode (safe, fast) and the deprecated Decode(); every one of 26 typed accessors via DecodeResult and FieldData, GetFieldData, FieldData(path), NestedResult(s) (recursively, depth 3) and Range compared with the reference: last occurrence / all occurrences with packed runs expanded / sub-message values / raw bytes / typed errors. All byte strings <= 4 (5) over a 16-symbol alphabet x 12 definitions for totality (full oracle when well-formed).",
    note="Property's own precondition: one wire type per requested field number. Where the statement is silent the reference's own expansion decides (parse ok => values equal; else any error). Workers are subprocesses with an address-space limit."),
+
+ "C14": dict(level="model_checking", design="DESIGN.md §7 C14",
+   technique="stateless depth-bounded DFS over operation sequences x deviation-bounded enumeration of sync.Pool answers, on the real lazyproto code (sync redirected to an explorable shim via build overlay); isolation oracle against a reference parse",
+   text="For each of 40 option combinations (mode x maxBuffer x filter): every operation sequence up to the stated depth over {Decode(each of 5-6 input shapes incl. malformed), ReadAll, Nested, NestedAll, ReadNested, Close} with 1 and 2 live handles, x every pool answer (LIFO / older / fresh) within the deviation bound. After every step every accessor of every live handle must equal the reference parse of its own input, nothing may panic, and in safe mode every value ever handed out (and the clobbered caller buffer) is re-verified.",
+   note="No state merging (no sound key for aliasing), so coverage = all executions within the bounds. Reading/closing a closed handle is misuse, outside the alphabet. Real sync.Pool behaviours are a subset of the enumerated answers."),
+ "C15": dict(level="model_checking", design="DESIGN.md §7 C15",
+   technique="controlled cooperative scheduler + DFS with iterative preemption bounding (CHESS style) x pool-answer enumeration on the real lazyproto code; separate free-running -race pass as sampling complement",
+   text="2 threads x 2 iterations and 3 threads x 1 iteration (thorough: + 3x2, higher bounds) sharing one Decoder, each iteration Decode/read/NestedResults/read nested/Close on its own unique input; scheduling points at every Pool.Get/Put, every API boundary and between obtaining and re-verifying values; all interleavings with <= 2 (3) preemptions x <= 1 (2) non-default pool answers. Oracle: per-thread isolation against the reference parse, no panic, no deadlock; replay determinism asserted before exploring.",
+   note="Cooperative scheduling cannot see unsynchronised accesses inside one API call: the -race pass (G in {2,8,32,64}, GOMAXPROCS {1,2,16}) is sampling and only a complement, reported under coverage.race_pass. Sequential consistency assumed."),
 }
 
 NOT_YET = {}
